@@ -285,6 +285,111 @@ pub fn decode_exhaustive(out: &mut Out, _count: u64) {
         }
     }
     flush(out, &mut idx, "exhaustive=forms", &mut lines);
+    // UTF-8: every sequence of up to three bytes over an alphabet with one byte of each class of
+    // RFC 3629 (and their neighbours), the four-byte forms, as the topic of a PUBLISH and as the
+    // value of a string property.
+    const ALPHA: [u8; 25] = [
+        0x00, 0x24, 0x7f, 0x80, 0x8f, 0x90, 0x9f, 0xa0, 0xbf, 0xc0, 0xc1, 0xc2, 0xdf, 0xe0, 0xe1, 0xec, 0xed, 0xee,
+        0xef, 0xf0, 0xf1, 0xf3, 0xf4, 0xf5, 0xff,
+    ];
+    let mut strings: Vec<Vec<u8>> = Vec::new();
+    for a in ALPHA {
+        strings.push(vec![a]);
+        for b in ALPHA {
+            strings.push(vec![a, b]);
+            for c in ALPHA {
+                strings.push(vec![a, b, c]);
+            }
+        }
+    }
+    for a in [0xf0u8, 0xf1, 0xf3, 0xf4, 0xf5] {
+        for b in [0x7fu8, 0x80, 0x8f, 0x90, 0x9f, 0xa0, 0xbf, 0xc0] {
+            for c in [0x7fu8, 0x80, 0xbf, 0xc0] {
+                for d in [0x7fu8, 0x80, 0xbf, 0xc0] {
+                    strings.push(vec![a, b, c, d]);
+                }
+            }
+        }
+    }
+    for s in &strings {
+        // PUBLISH QoS 0, topic s, no properties, payload "p"
+        let mut body = (s.len() as u16).to_be_bytes().to_vec();
+        body.extend(s);
+        body.extend([0x00, 0x70]);
+        let mut bytes = vec![0x30, body.len() as u8];
+        bytes.extend(&body);
+        push(out, &mut idx, &mut lines, &bytes, "exhaustive=utf8");
+        // PUBLISH QoS 0, topic "t", Content Type s
+        let mut body = vec![0x00, 0x01, 0x74, (3 + s.len()) as u8, 0x03];
+        body.extend((s.len() as u16).to_be_bytes());
+        body.extend(s);
+        body.push(0x70);
+        let mut bytes = vec![0x30, body.len() as u8];
+        bytes.extend(&body);
+        push(out, &mut idx, &mut lines, &bytes, "exhaustive=utf8");
+    }
+    flush(out, &mut idx, "exhaustive=utf8", &mut lines);
+    // Property blocks whose length is right and whose content stops short: every variable byte
+    // integer form after Subscription Identifier, every fixed-width property cut at every byte,
+    // strings, binary data and string pairs whose declared length runs past the block.
+    let mut blocks: Vec<Vec<u8>> = Vec::new();
+    for form in &forms {
+        let mut b = vec![0x0b];
+        b.extend(form);
+        blocks.push(b);
+    }
+    for (id, width) in [(0x01u8, 1usize), (0x23, 2), (0x02, 4), (0x24, 1), (0x21, 2), (0x27, 4)] {
+        for have in 0..=width {
+            let mut b = vec![id];
+            b.extend(vec![0x01; have]);
+            blocks.push(b.clone());
+            b.extend([0x01, 0x01]);
+            blocks.push(b);
+        }
+    }
+    for id in [0x03u8, 0x08, 0x09, 0x1f, 0x26] {
+        for declared in [0u16, 1, 2, 3] {
+            for have in 0..=4usize {
+                let mut b = vec![id];
+                b.extend(declared.to_be_bytes());
+                b.extend(vec![0x61; have]);
+                blocks.push(b.clone());
+                if id == 0x26 {
+                    b.extend(declared.to_be_bytes());
+                    b.extend(vec![0x62; have]);
+                    blocks.push(b);
+                }
+            }
+        }
+        blocks.push(vec![id]);
+        blocks.push(vec![id, 0x00]);
+    }
+    for block in &blocks {
+        for first in [0x30u8, 0x32] {
+            let mut body = vec![0x00, 0x01, 0x74];
+            if first == 0x32 {
+                body.extend([0x00, 0x05]);
+            }
+            body.push(block.len() as u8);
+            body.extend(block);
+            body.push(0x70);
+            let mut bytes = vec![first, body.len() as u8];
+            bytes.extend(&body);
+            push(out, &mut idx, &mut lines, &bytes, "exhaustive=props");
+        }
+        // the same block in a PUBACK and in a CONNACK
+        let mut body = vec![0x00, 0x05, 0x00, block.len() as u8];
+        body.extend(block);
+        let mut bytes = vec![0x40, body.len() as u8];
+        bytes.extend(&body);
+        push(out, &mut idx, &mut lines, &bytes, "exhaustive=props");
+        let mut body = vec![0x00, 0x00, block.len() as u8];
+        body.extend(block);
+        let mut bytes = vec![0x20, body.len() as u8];
+        bytes.extend(&body);
+        push(out, &mut idx, &mut lines, &bytes, "exhaustive=props");
+    }
+    flush(out, &mut idx, "exhaustive=props", &mut lines);
 }
 
 pub fn decode_exhaustive3(out: &mut Out, _count: u64) {
